@@ -45,6 +45,23 @@ Definition all_buckets : list bucket := [Photon; Charge; Pixel; Signal; Image].
 
 Record arr := { a_dt : dtype; a_shape : list Z; a_vals : list Z }.
 
+(* the six kinds of container contents that have their own read-out code (`to_xarray`): a photon
+   container holds either a 2-D numpy array or a 3-D (wavelength, y, x) DataArray *)
+Inductive ckind := KPhoton2 | KPhoton3 | KCharge | KPixel | KSignal | KImage.
+
+Definition all_kinds : list ckind := [KPhoton2; KPhoton3; KCharge; KPixel; KSignal; KImage].
+
+Definition kind_of (b : bucket) (a : arr) : ckind :=
+  match b with
+  | Photon => if (List.length (a_shape a) =? 3)%nat then KPhoton3 else KPhoton2
+  | Charge => KCharge | Pixel => KPixel | Signal => KSignal | Image => KImage
+  end.
+
+(* does the read-out of a container of this kind COPY the container's buffer?  As coded: ArrayBase.to_xarray
+   and the 2-D branch of Photon.to_xarray build `np.array(self.array, ...)` (a copy), the 3-D branch
+   `self._array.astype(...)` (a copy), Charge.to_xarray wraps `self.array` itself (NO copy). *)
+Definition copies_as_coded (k : ckind) : bool := match k with KCharge => false | _ => true end.
+
 Fixpoint zlist_eqb (a b : list Z) : bool :=
   match a, b with
   | [], [] => true
@@ -215,16 +232,6 @@ Definition diff (last : option capture) (cur : capture) : capture := filter (rec
 
 Record inode := { n_step : nat; n_group : string; n_name : string; n_vars : capture }.
 
-(* Charge.to_xarray wraps the detector's array WITHOUT copying it (the other containers copy), and
-   Charge.add_charge_array adds in place: a `charge` variable stored in a node keeps following the
-   detector's charge until the next reset replaces the array.  Modelled for programs that only change
-   the charge in place within a step (the only way the probes and pyxel's add_charge_array do). *)
-Definition alias_charge (final : snapshot) (n : inode) : inode :=
-  {| n_step := n_step n; n_group := n_group n; n_name := n_name n;
-     n_vars := map (fun ba => if bucket_eqb (fst ba) Charge
-                              then match get final Charge with Some a => (Charge, a) | None => ba end
-                              else ba) (n_vars n) |}.
-
 (* -------------------------------------------------------------------------------- the exposure *)
 
 Inductive layout := Flat | Hier.
@@ -233,8 +240,12 @@ Section Exposure.
   Context {Scene Data : Type}.
   Variable empty_scene : Scene.
   Variable scene_is_empty : Scene -> bool.
+  Variable copies : ckind -> bool.        (* which read-outs copy the buffer (copies_as_coded for the code as written) *)
 
-  Record det := { d_snap : snapshot; d_scene : Scene; d_data : Data }.
+  (* d_gen b: the identity ("generation") of the buffer that container b holds.  A model that changes a
+     container IN PLACE (`+=`, `[...] =`, Charge.add_charge_array) keeps it; one that assigns a new array
+     (`.array = new`) changes it.  Only equality of the generations of two CONSECUTIVE states is ever used. *)
+  Record det := { d_snap : snapshot; d_gen : bucket -> nat; d_scene : Scene; d_data : Data }.
 
   (* a model function: any transformer of the detector, may depend on the step index *)
   Record mdl := { m_group : string; m_name : string; m_fn : nat -> det -> det }.
@@ -252,11 +263,13 @@ Section Exposure.
     {| a_dt := F64; a_shape := shp; a_vals := repeat 0 (Z.to_nat (fold_right Z.mul 1 shp)) |}.
 
   (* Detector.empty(reset): scene, photon, signal, image emptied, charge zeroed, pixel zeroed iff reset;
-     `data` is left alone *)
+     `data` is left alone.  Zeroing allocates a NEW array (np.zeros / np.zeros_like), emptying drops the
+     buffer: every container but a kept pixel array changes its generation. *)
   Definition reset (shp : list Z) (keep_pixel : bool) (d : det) : det :=
     {| d_snap := {| s_photon := None; s_charge := Some (zeros shp);
                     s_pixel := if keep_pixel then s_pixel (d_snap d) else Some (zeros shp);
                     s_signal := None; s_image := None |};
+       d_gen := fun b => if keep_pixel && bucket_eqb b Pixel then d_gen d b else S (d_gen d b);
        d_scene := empty_scene; d_data := d_data d |}.
 
   Definition view (d : det) : snapshot := extract (d_snap d).
@@ -274,6 +287,42 @@ Section Exposure.
     | S n' => let d' := step_end c i d in d' :: end_states c (S i) n' d'
     end.
 
+  (* ---- read-outs that do not copy: the DataArray stored in the result shares the container's buffer and
+     keeps showing what the container holds for as long as the container keeps that buffer ---- *)
+  Fixpoint follow (b : bucket) (g : nat) (cur : arr) (tr : list det) : arr :=
+    match tr with
+    | [] => cur
+    | d :: tr' =>
+        match get (view d) b with
+        | Some a' => if Nat.eqb (d_gen d b) g then follow b g a' tr' else cur
+        | None => cur
+        end
+    end.
+
+  (* a variable read out of state d, seen after the detector went through the states `later` *)
+  Definition settle (d : det) (later : list det) (ba : bucket * arr) : bucket * arr :=
+    if copies (kind_of (fst ba) (snd ba)) then ba
+    else (fst ba, follow (fst ba) (d_gen d (fst ba)) (snd ba) later).
+
+  Definition settle_snapshot (d : det) (later : list det) (s : snapshot) : snapshot :=
+    let f b := option_map (fun a => snd (settle d later (b, a))) (get s b) in
+    {| s_photon := f Photon; s_charge := f Charge; s_pixel := f Pixel; s_signal := f Signal; s_image := f Image |}.
+
+  Fixpoint model_states (i : nat) (ms : list mdl) (d : det) : list det :=
+    match ms with
+    | [] => []
+    | m :: ms' => let d' := m_fn m i d in d' :: model_states i ms' d'
+    end.
+
+  (* every state the detector goes through from step i on: after the reset, after each model *)
+  Fixpoint trace (c : config) (i n : nat) (d : det) : list det :=
+    match n with
+    | O => []
+    | S n' =>
+        let d0 := reset (c_shape c) (c_nondestr c) d in
+        d0 :: model_states i (c_models c) d0 ++ trace c (S i) n' (run_models i (c_models c) d0)
+    end.
+
   Fixpoint debug_models (i : nat) (ms : list mdl) (d : det) (last : option capture)
     : list inode * option capture :=
     match ms with
@@ -285,6 +334,15 @@ Section Exposure.
         ({| n_step := i; n_group := m_group m; n_name := m_name m; n_vars := diff last cur |} :: fst r, snd r)
     end.
 
+  (* the k-th node was read out of the k-th state; it is looked at when the run is over *)
+  Fixpoint settle_nodes (ns : list inode) (sts : list det) (later : list det) : list inode :=
+    match ns, sts with
+    | n :: ns', d :: sts' =>
+        {| n_step := n_step n; n_group := n_group n; n_name := n_name n;
+           n_vars := map (settle d (sts' ++ later)) (n_vars n) |} :: settle_nodes ns' sts' later
+    | _, _ => []
+    end.
+
   Fixpoint debug_steps (c : config) (i n : nat) (d : det) (last : option capture) : list inode :=
     match n with
     | O => []
@@ -292,7 +350,8 @@ Section Exposure.
         let d0 := reset (c_shape c) (c_nondestr c) d in
         let r := debug_models i (c_models c) d0 last in
         let dend := run_models i (c_models c) d0 in
-        map (alias_charge (view dend)) (fst r) ++ debug_steps c (S i) n' dend (snd r)
+        settle_nodes (fst r) (model_states i (c_models c) d0) (trace c (S i) n' dend)
+          ++ debug_steps c (S i) n' dend (snd r)
     end.
 
   Record tree := {
@@ -316,11 +375,25 @@ Section Exposure.
 
   Definition labels (c : config) : list Z := map (Z.add (c_start c)) (c_times c).
 
+  (* what the result holds of each step: the read-out of the detector at the end of the step.  The first
+     step's dataset is kept AS IT IS until the merge at the end of the second step (which allocates new
+     arrays), so a read-out that does not copy still shares the detector's buffer while the second step runs. *)
+  Definition views (c : config) (ends : list det) : list snapshot :=
+    match ends with
+    | [] => []
+    | e0 :: rest =>
+        let later := match rest with
+                     | [] => []
+                     | _ :: _ => let d1 := reset (c_shape c) (c_nondestr c) e0 in d1 :: model_states 1 (c_models c) d1
+                     end in
+        settle_snapshot e0 later (view e0) :: map view rest
+    end.
+
   Definition exposure (c : config) (d_init : det) : option tree :=
     let d0 := reset (c_shape c) false d_init in
     let n := List.length (c_times c) in
     let ends := end_states c 0 n d0 in
-    match assemble (combine (labels c) (map view ends)) with
+    match assemble (combine (labels c) (views c ends)) with
     | None => None
     | Some ds =>
         let final := last ends d0 in
@@ -403,10 +476,17 @@ Definition image_uniform (snaps : list snapshot) : Prop :=
 
 Definition payload := list (string * list Z).      (* scene / data nodes: path -> values *)
 
+(* WAssign: a new array replaces the container's (`.array = new`, `.array_3d = new`; charge: `empty()` then
+   `add_charge_array`).  WIAdd: added to the container's buffer in place (`+=`, Charge.add_charge_array).
+   WISet: the buffer is overwritten in place (`.array[...] = new`).  On an uninitialised container the two
+   in-place modes can only initialise it (a new buffer). *)
+Inductive wmode := WAssign | WIAdd | WISet.
+
 Record write := {
   w_bucket : bucket;
   w_dt : dtype;
   w_waves : Z;                   (* photon only: 0 = 2-D array, k >= 1 = 3-D with k wavelengths *)
+  w_mode : wmode;
   w_per_step : list Z }.         (* base value at step i; the array is base + 0, base + 1, ... *)
 
 Inductive action :=
@@ -422,17 +502,23 @@ Definition nelems (shp : list Z) : nat := Z.to_nat (fold_right Z.mul 1 shp).
 
 Definition add_lists (a b : list Z) : list Z := map (fun p => fst p + snd p) (combine a b).
 
-Definition apply_write (shp : list Z) (i : nat) (w : write) (s : snapshot) : snapshot :=
+(* -> the containers after the write, and whether the written container got a NEW buffer *)
+Definition apply_write (shp : list Z) (i : nat) (w : write) (s : snapshot) : snapshot * bool :=
   let v := nth i (w_per_step w) 0 in
-  match w_bucket w with
-  | Photon =>
-      let shp' := if w_waves w =? 0 then shp else w_waves w :: shp in
-      set s Photon (Some {| a_dt := w_dt w; a_shape := shp'; a_vals := iota v (nelems shp') |})
-  | Charge =>
-      (* Charge.add_charge_array: added to the (zeroed) array, always float64 *)
-      let old := match s_charge s with Some a => a_vals a | None => repeat 0 (nelems shp) end in
-      set s Charge (Some {| a_dt := F64; a_shape := shp; a_vals := add_lists old (iota v (nelems shp)) |})
-  | b => set s b (Some {| a_dt := w_dt w; a_shape := shp; a_vals := iota v (nelems shp) |})
+  let b := w_bucket w in
+  let shp' := match b with
+              | Photon => if w_waves w =? 0 then shp else w_waves w :: shp
+              | _ => shp
+              end in
+  let dt := match b with Charge => F64 | _ => w_dt w end in
+  let fresh := {| a_dt := dt; a_shape := shp'; a_vals := iota v (nelems shp') |} in
+  match w_mode w, get s b with
+  | WAssign, _ | _, None => (set s b (Some fresh), true)
+  | WIAdd, Some old =>
+      (set s b (Some {| a_dt := a_dt old; a_shape := a_shape old;
+                        a_vals := add_lists (a_vals old) (a_vals fresh) |}), false)
+  | WISet, Some old =>
+      (set s b (Some {| a_dt := a_dt old; a_shape := a_shape old; a_vals := a_vals fresh |}), false)
   end.
 
 Fixpoint pl_set (k : string) (v : list Z) (p : payload) : payload :=
@@ -446,9 +532,13 @@ Definition pmdl := mdl payload payload.
 
 Definition apply_action (shp : list Z) (a : action) (i : nat) (d : pdet) : pdet :=
   match a with
-  | AWrite w => {| d_snap := apply_write shp i w (d_snap d); d_scene := d_scene d; d_data := d_data d |}
-  | AData k vs => {| d_snap := d_snap d; d_scene := d_scene d; d_data := pl_set k [nth i vs 0] (d_data d) |}
-  | AScene k vs => {| d_snap := d_snap d; d_scene := pl_set k [nth i vs 0] (d_scene d); d_data := d_data d |}
+  | AWrite w =>
+      let r := apply_write shp i w (d_snap d) in
+      {| d_snap := fst r;
+         d_gen := fun b => if snd r && bucket_eqb b (w_bucket w) then S (d_gen d b) else d_gen d b;
+         d_scene := d_scene d; d_data := d_data d |}
+  | AData k vs => {| d_snap := d_snap d; d_gen := d_gen d; d_scene := d_scene d; d_data := pl_set k [nth i vs 0] (d_data d) |}
+  | AScene k vs => {| d_snap := d_snap d; d_gen := d_gen d; d_scene := pl_set k [nth i vs 0] (d_scene d); d_data := d_data d |}
   | ANop => d
   end.
 
@@ -476,7 +566,7 @@ Definition payload_is_empty (p : payload) : bool := negb (existsb (fun kv => is_
 Definition blank : snapshot :=
   {| s_photon := None; s_charge := None; s_pixel := None; s_signal := None; s_image := None |}.
 
-Definition pdet0 : pdet := {| d_snap := blank; d_scene := []; d_data := [] |}.
+Definition pdet0 : pdet := {| d_snap := blank; d_gen := fun _ => O; d_scene := []; d_data := [] |}.
 
 (* ---- what the driver observed ---- *)
 
@@ -619,7 +709,7 @@ Definition config_of (k : case) : config payload payload :=
      c_models := map (mdl_of [k_rows k; k_cols k]) (k_models k) |}.
 
 Definition model_tree (k : case) : option (tree payload payload) :=
-  exposure [] payload_is_empty (config_of k) pdet0.
+  exposure [] payload_is_empty copies_as_coded (config_of k) pdet0.
 
 Definition tree_matches (k : case) (t : tree payload payload) (o : otree) : bool :=
   String.eqb (t_bucket_path t) (o_bucket_path o)
